@@ -28,20 +28,20 @@ def obligations(tier):
         Ob('write_then_read_and_layout_quick', 'ch', 'capacity 1..3, 8 trailer combinations, TIF on/off, record lengths 1..5 and 1..3',
            ['LIS.core.PhysRec.PhysRecWrite.writeLr', 'PhysRecTail.*', 'PhysRecRead._readHead/_readTail/__readOrSkip/readLrBytes/skipLrBytes/skipToNextLr/seekLr/tellLr',
             'TifMarker.TifMarkerWrite.write/close', 'TifMarkerRead.read/_read/reset', 'File.FileWrite/FileRead', 'RawStream'],
-           harness='C05_physrec', func='write_then_read_q', timeout=240, parts=16, stubs=stubs, tiers=('quick',)),
+           harness='C05_physrec', func='write_then_read_q', timeout=240, parts=16, stubs=stubs, tiers=()),
         Ob('payload_bytes_symbolic', 'ch', 'two records (4 and 2 bytes) with three fully symbolic payload bytes, TIF on/off',
            ['PhysRecWrite.writeLr', 'PhysRecRead.readLrBytes'], harness='C05_physrec', func='payload_bytes', timeout=120 if q else 600, stubs=stubs),
         Ob('write_then_read_and_layout', 'ch', 'capacity 1..4, 8 trailer combinations, TIF on/off, record lengths 1..7 and 1..5',
            ['LIS.core.PhysRec.PhysRecWrite.writeLr', 'PhysRecTail.*', 'PhysRecRead._readHead/_readTail/__readOrSkip/readLrBytes/skipLrBytes/skipToNextLr/seekLr/tellLr',
             'TifMarker.TifMarkerWrite.write/close', 'TifMarkerRead.read/_read/reset', 'File.FileWrite/FileRead', 'RawStream'],
-           harness='C05_physrec', func='write_then_read', timeout=2400, parts=16, stubs=stubs, tiers=('thorough',)),
-        Ob('strip_tif_equals_unmarked', 'ch', 'capacity 1..3, record-number/checksum trailers, record lengths 1..5 and 1..3',
+           harness='C05_physrec', func='write_then_read', timeout=600, parts=16, stubs=stubs),
+        Ob('strip_tif_equals_unmarked', 'ch', 'capacity 1..4, record-number/checksum trailers, record lengths 1..7 and 1..5',
            ['DeTif.strip_tif', 'DeTif._read_tifs', 'PhysRecWrite.writeLr', 'TifMarkerWrite'], harness='C05_physrec', func='strip_tif_is_plain',
            timeout=240 if q else 900, parts=4, stubs=stubs),
         Ob('sized_reads_and_skips_quick', 'ch', '2 records (5 and 4 bytes), capacity 2..3, TIF on/off, seek to record j, read(n)/skip(n) with n 0..5 then 0..4, then read rest',
            ['PhysRecRead.readLrBytes/skipLrBytes/__readOrSkip/__readLdWithinPr/__skipLdWithinPr/seekLr/tellLr'], harness='C05_physrec', func='sized_reads_and_skips_q',
-           timeout=240, parts=16, stubs=stubs, tiers=('quick',)),
+           timeout=240, parts=16, stubs=stubs, tiers=()),
         Ob('sized_reads_and_skips', 'ch', '2 records (5 and 4 bytes), capacity 2..3, TIF on/off, seek to record j, two operations read(n)/skip(n) with n 0..6, then read rest',
            ['PhysRecRead.readLrBytes/skipLrBytes/__readOrSkip/__readLdWithinPr/__skipLdWithinPr/seekLr/tellLr'], harness='C05_physrec', func='sized_reads_and_skips',
-           timeout=1500, parts=16, stubs=stubs, tiers=('thorough',)),
+           timeout=600, parts=16, stubs=stubs),
     ]
